@@ -36,7 +36,8 @@ import (
 type attr struct{ id, addr, caddr int }
 
 type world struct {
-	ev   *evWorld // event / refresh / propagation tier (events.go, e2e.go)
+	ev   *evWorld  // event / refresh / propagation tier (events.go, e2e.go)
+	deb  *debWorld // refresh-debouncer unit tier (debounce.go)
 	ring *gocql.VerifRing
 	objs map[int]*gocql.HostInfo
 	num  map[*gocql.HostInfo]int
@@ -766,7 +767,8 @@ func main() {
 			randomOps(true)
 		}
 	}
-	runEvents(r, out, tier) // events.go: logical tier (real handlers / refreshRing on a dial-free Session)
-	runE2E(r, out, tier)    // e2e.go: real Sessions with control connection on scripted in-memory clusters
+	runEvents(r, out, tier)    // events.go: logical tier (real handlers / refreshRing on a dial-free Session)
+	runDebouncer(r, out, tier) // debounce.go: the real refreshDebouncer with requests arriving during a refresh
+	runE2E(r, out, tier)       // e2e.go: real Sessions with control connection on scripted in-memory clusters
 	out.Close(nil)
 }
